@@ -5,6 +5,7 @@ package main
 import (
 	"encoding/json"
 	"fmt"
+	"regexp"
 	"strings"
 	"testing"
 
@@ -56,6 +57,8 @@ func (c *c14Case) scenario() *Scenario {
 	sc.Actors["runtime"] = []Script{{Steps: steps}}
 	return sc
 }
+
+var c14FirstNumber = regexp.MustCompile(`[0-9]+`)
 
 func c14Check(c c14Case) (out kit.Outcome) {
 	sc := c.scenario()
@@ -155,6 +158,14 @@ func c14Check(c c14Case) (out kit.Outcome) {
 				!strings.Contains(e.ErrorMessage, fmt.Sprint(inv.Resp)) || !strings.Contains(e.ErrorMessage, fmt.Sprint(maxPayload)) {
 				out.Violate("C14/oversize-outcome", "invocation %s: caller got %d %q; expected Function.ResponseSizeTooLarge naming %d and %d", tag, ret.Status, clip(ret.Text, 300), inv.Resp, maxPayload)
 				return out
+			}
+			// "stating both sizes": each as what it is - the number the message calls the maximum is the limit, not the size
+			// of this response
+			if i := strings.Index(strings.ToLower(e.ErrorMessage), "maximum"); i >= 0 {
+				if m := c14FirstNumber.FindString(e.ErrorMessage[i:]); m != "" && m != fmt.Sprint(maxPayload) {
+					out.Violate("C14/oversize-outcome/sizes-misstated", "invocation %s: response of %d bytes, limit %d; the caller is told %q", tag, inv.Resp, maxPayload, e.ErrorMessage)
+					return out
+				}
 			}
 		}
 	}
